@@ -16,7 +16,7 @@ ASSUMPTIONS = _c3.ASSUMPTIONS + [
 
 
 def configs(tier):
-    return _c3.configs(tier) + _c16.configs(tier)
+    return _c3.configs(tier) + _c16.configs(tier, c04=True)
 
 
 def run_config(cfg, seed, tier):
